@@ -2636,6 +2636,10 @@ func (p *printer) printExpr(expr js_ast.Expr, level js_ast.L, flags printExprFla
 		switch index := e.Index.Data.(type) {
 		case *js_ast.EPrivateIdentifier:
 			if e.OptionalChain != js_ast.OptionalChainStart {
+				if p.needSpaceBeforeDot == len(p.js) {
+					// "1.#x" is a syntax error, so print "1 .#x" instead
+					p.print(" ")
+				}
 				p.print(".")
 			}
 			name := p.renamer.NameForSymbol(index.Ref)
@@ -2646,6 +2650,10 @@ func (p *printer) printExpr(expr js_ast.Expr, level js_ast.L, flags printExprFla
 		case *js_ast.ENameOfSymbol:
 			if name := p.mangledPropName(index.Ref); p.canPrintIdentifier(name) {
 				if e.OptionalChain != js_ast.OptionalChainStart {
+					if p.needSpaceBeforeDot == len(p.js) {
+						// "1.#x" is a syntax error, so print "1 .#x" instead
+						p.print(" ")
+					}
 					p.print(".")
 				}
 				p.addSourceMappingForName(e.Index.Loc, name, index.Ref)
@@ -2657,6 +2665,10 @@ func (p *printer) printExpr(expr js_ast.Expr, level js_ast.L, flags printExprFla
 			if p.options.MinifySyntax {
 				if str, ok := index.Value.Data.(*js_ast.EString); ok && p.canPrintIdentifierUTF16(str.Value) {
 					if e.OptionalChain != js_ast.OptionalChainStart {
+						if p.needSpaceBeforeDot == len(p.js) {
+							// "1.#x" is a syntax error, so print "1 .#x" instead
+							p.print(" ")
+						}
 						p.print(".")
 					}
 					p.addSourceMapping(index.Value.Loc)
@@ -2669,6 +2681,10 @@ func (p *printer) printExpr(expr js_ast.Expr, level js_ast.L, flags printExprFla
 			if p.options.MinifySyntax {
 				if value, ok := p.tryToGetImportedEnumValue(index.Target, index.Name); ok && value.String != nil && p.canPrintIdentifierUTF16(value.String) {
 					if e.OptionalChain != js_ast.OptionalChainStart {
+						if p.needSpaceBeforeDot == len(p.js) {
+							// "1.#x" is a syntax error, so print "1 .#x" instead
+							p.print(" ")
+						}
 						p.print(".")
 					}
 					p.addSourceMapping(e.Index.Loc)
